@@ -201,6 +201,24 @@ def vr_switch_obl(direction, timeout=600):
                funcs=['vr32.c:vr_process', 'vr32.c:do_input_stage', 'vr32.c:enter_new_stage', 'fifo.h:fifo_reserve', 'fifo.h:fifo_read', 'fifo.h:fifo_trim_by'])
 
 
+def vr_tables_obl(path, kf=None, timeout=600, astages=None):
+    """C10: VR static coefficient tables vs a second instance's gain"""
+    instr = []
+    for r in ['prepare_coefs:vf_prepare_coefs_gain', 'poly_fir1_u:vf_poly_fir1_u_dc', 'poly_fir1_d:vf_poly_fir1_d_dc', 'half_iir1:vf_half_iir1_dc',
+              'double_fir0:vf_fir_data_only', 'double_fir1:vf_fir_data_only', 'half_fir:vf_fir_data_only', 'fast_half_fir:vf_fir_data_only']:
+        instr += ['--replace-calls', r]
+    astages = path if astages is None else astages
+    return Obl(name='vr_tables_two_instances_%s_after_%s%s' % ('d' if path else 'u', 'd' if astages else 'u', '_probe' if kf else ''), src='vr_step.c', defs=['-DVF_OP=5', '-DVF_PATH=%d' % path, '-DVF_ASTAGES=%d' % astages], unwind=1100, timeout=timeout,
+               ndebug=False, instrument=instr, extra=['--paths', 'lifo'], slice=False, native=False, kf=kf, mem_gb=20,
+               desc='vr32.c: two engine instances initialised by the real vr_init with arbitrary gains A and B; one output frame of instance B through the real vr_process '
+                    '(%s stream): B applies its own gain whatever A asked for (process-wide coefficient tables do not leak settings)' % ('decimating' if path else 'interpolating'),
+               bounds='gains in [2^-40, 2^40] (symbolic doubles); one output frame; ratio mid-octave; cbmc --paths lifo',
+               stubs=['goto-instrument --replace-calls: DC-gain semantics - prepare_coefs records the gain it bakes into a table, the per-sample kernels return that gain (unit DC input), '
+                      'the half-band IIR pair sums its inputs; half-band FIR dot products data only', 'cos(): 1 at 0, else a constant (fills the cross-fade table: data not used here)',
+                      "instance B's FIFOs replaced by statically allocated ones of the same content"],
+               funcs=['vr32.c:vr_init', 'vr32.c:vr_process', 'vr32.c:poly_fir_u', 'vr32.c:poly_fir_d', 'vr32.c:half_iir', 'vr32.c:enter_new_stage'])
+
+
 PLAN_OPS = {0: 'set_dft_length', 1: 'dft_stage_init', 2: 'init_validation', 3: 'halving_loop'}
 PLAN_STUBS = ['log(): log2 bracket floor(log2 x) <= r < floor(log2 x)+1 (only used as log(a)/log(2))', 'lsx_design_lpf / lsx_fir_to_phase: any length <= 33 of the forced residue class, any peak position',
               'rdft_cb: set-up functions check the documented pffft precondition; transforms are no-ops']
